@@ -106,6 +106,18 @@ func (x *Exec) loopScope(st *State, n ast.Node, extra *SpecScope) *SpecScope {
 				}
 			}
 		}
+		// engine-introduced loop variables: range<N>_i, range<N>_visited, range<N>_key, visited<N>
+		hidden := name
+		if strings.HasPrefix(name, "visited") && len(name) > 7 {
+			hidden = "range" + name[7:] + "_visited"
+		}
+		if strings.HasPrefix(hidden, "range") && strings.Contains(hidden, "_") {
+			for o, val := range st.env {
+				if o.Name() == hidden {
+					return val
+				}
+			}
+		}
 		// variables declared by the loop header itself
 		var found *Value
 		for o, val := range st.env {
@@ -390,7 +402,7 @@ func (x *Exec) specIndex(base, idx *Value, st *State) *Value {
 		p := &Pointer{Base: SArr(base.Tm), Idx: Add(SOff(base.Tm), x.specInt(idx)), ArrT: types.NewArray(et, -1)}
 		return x.load(st, p, et)
 	case KArr:
-		it := idx.Tm
+		it := idx.term()
 		if it.S != base.Tm.S.Dom {
 			if base.Tm.S.Dom == IntS {
 				it = x.specInt(idx)
@@ -556,6 +568,32 @@ func (x *Exec) specCall(e *ast.CallExpr, sc *SpecScope, st *State) *Value {
 	name := id.Name
 	arg := func(i int) *Value { return x.evalSpec(e.Args[i], sc, st) }
 	switch name {
+	case "field":
+		// field(T.f): the whole heap map of field f of struct type T (declared in the contract's package)
+		se, ok := e.Args[0].(*ast.SelectorExpr)
+		if !ok {
+			panic(engErr("field(T.f) expected"))
+		}
+		var tn types.Object
+		if id, ok := se.X.(*ast.Ident); ok {
+			for s := sc; s != nil && tn == nil; s = s.parent {
+				if s.pkg != nil {
+					tn = s.pkg.Scope().Lookup(id.Name)
+				}
+			}
+		} else if q, ok := se.X.(*ast.SelectorExpr); ok {
+			for _, p := range x.eng.pkgs {
+				if p.Types.Name() == q.X.(*ast.Ident).Name {
+					tn = p.Types.Scope().Lookup(q.Sel.Name)
+				}
+			}
+		}
+		if tn == nil {
+			panic(engErr("field(): unknown type in %s", exprString(se.X)))
+		}
+		p, ft := x.specFieldPtr(&Pointer{Base: IntLit(1)}, tn.Type(), se.Sel.Name)
+		k, ks := x.locKey(p, x.sortOf(ft), ft)
+		return &Value{Tm: st.hget(k, ks)}
 	case "old":
 		if sc.old == nil {
 			panic(engErr("old() not available here"))
@@ -628,7 +666,7 @@ func (x *Exec) specCall(e *ast.CallExpr, sc *SpecScope, st *State) *Value {
 		} else {
 			ref = v.term()
 		}
-		return &Value{T: bt, Tm: And(Ge(ref, sc.oldState().allocTop()), Gt(ref, IntLit(0)))}
+		return &Value{T: bt, Tm: And(Ge(ref, sc.oldState().allocTop()), Gt(ref, IntLit(0)), Lt(ref, st.allocTop()))}
 	case "allocated":
 		v := arg(0)
 		return &Value{T: bt, Tm: Lt(v.term(), st.allocTop())}
@@ -652,6 +690,13 @@ func (x *Exec) specCall(e *ast.CallExpr, sc *SpecScope, st *State) *Value {
 		}
 		et := types.Unalias(v.T).Underlying().(*types.Slice).Elem()
 		return &Value{Tm: x.sliceContents(st, v.Tm, x.sortOf(et), et)}
+	case "bytes":
+		// abstract content of a byte slice
+		v := arg(0)
+		if v.Tm == nil || v.Tm.S != SliceS {
+			panic(engErr("bytes() expects a slice"))
+		}
+		return &Value{Tm: App("bytesval", UnS("Bytes"), x.sliceContents(st, v.Tm, x.sortOf(types.Typ[types.Uint8]), types.Typ[types.Uint8]), SOff(v.Tm), SLen(v.Tm))}
 	case "arr":
 		return &Value{Tm: SArr(arg(0).Tm)}
 	case "off":
